@@ -22,9 +22,25 @@ def _boom(_):
     raise Boom("boom")
 
 
+class CallableObject(object):
+    """A callable that is neither a function nor a class (no __name__)."""
+
+    def __call__(self, v):
+        import lena.flow as lf
+        return lf.get_data(v) > 0
+
+
+class CallableClass(object):
+    """A class whose instances are callable: as a specification it is still a class."""
+
+    def __call__(self, v):
+        return True
+
+
 def funcs():
     import lena.flow as lf
     return {
+        "objpos": CallableObject(),
         "yes": lambda v: True,
         "no": lambda v: False,
         "boom": _boom,
@@ -36,7 +52,7 @@ def funcs():
     }
 
 
-CLASSES = {"int": int, "str": str, "bool": bool, "object": object, "tuple": tuple}
+CLASSES = {"int": int, "str": str, "bool": bool, "object": object, "tuple": tuple, "ucls": CallableClass}
 PREDS = {
     "isdict": lambda s: isinstance(s, dict),
     "isnone": lambda s: s is None,
@@ -119,7 +135,16 @@ def enc_data(x):
     raise ValueError("cannot encode data %r" % (x,))
 
 
+DuckPair = __import__("collections").namedtuple("DuckPair", "data context")
+
+
 def dec_val(v):
+    sub = v.get("sub", "")
+    if sub == "listpair":
+        return [1, {"a": {}}]                       # a list, not a (data, context) pair
+    if sub == "duck":                               # tuple subclass holding a dict subclass
+        import collections
+        return DuckPair(dec_data(v["d"]), collections.OrderedDict(dec_ctx(v["c"])))
     data = dec_data(v["d"])
     if v["h"]:
         return (data, dec_ctx(v["c"]))
@@ -249,7 +274,7 @@ def random_leaf(rnd):
         return {"k": "str", "p": rnd.choice(LEAF_PATHS)}
     if t < 0.6:
         return {"k": "cls", "c": rnd.choice(sorted(CLASSES))}
-    return {"k": "fn", "f": rnd.choice(["yes", "no", "boom", "pos", "len", "hasctx", "isnone", "eq0"])}
+    return {"k": "fn", "f": rnd.choice(["yes", "no", "boom", "pos", "len", "hasctx", "isnone", "eq0", "objpos"])}
 
 
 def random_spec(rnd, depth, want_obj=False):
@@ -336,6 +361,8 @@ def gm_args(G, M, style=0):
             g = g[0]
         if len(m) == 1:
             m = m[0]
+    if style == 3:
+        g, m = list(g), list(m)                     # lists instead of tuples
     return g, m
 
 
